@@ -7,6 +7,10 @@ OBLIGATIONS = [
      stubs={'_ZNSt6vectorIbSaIbEE13_M_insert_auxESt13_Bit_iteratorb': 'unreachable'},
      bound='ANY corner table of 2 faces over <= 4 vertices satisfying the C13 invariants (assumed), 1 attribute connectivity with arbitrary corner->vertex map shared by encoder and decoder, flags consistent with it, ANY compatible corner->point map of the input mesh (known finding F16: input meshes with duplicate points; re-proved for deduplicated input)',
      covers='MeshEdgebreakerEncoder::ComputeNumberOfEncodedPoints vs MeshEdgebreakerDecoderImpl<MeshEdgebreakerTraversalDecoder>::AssignPointsToCorners on real Mesh / CornerTable / MeshAttributeCornerTable / encoder / decoder objects'),
+  Ob('C09.eb_point_count_2att', 'C09/ebcount.cc', 'h_eb_point_count', tier='thorough', unwind=7, defines={'NF': 2, 'NV': 4, 'NA': 2, 'DEDUPLICATED_INPUT': 1}, max_alloc=64, mem_gb=24, timeout=2400, backend='kissat',
+     unwindset=[AP + '.3:3', AP + '.5:3', AP + '.4:3', AP + '.6:3', AP + '.2:3'],
+     stubs={'_ZNSt6vectorIbSaIbEE13_M_insert_auxESt13_Bit_iteratorb': 'unreachable'},
+     bound='as C09.eb_point_count with TWO attribute connectivities (a seam of either attribute creates a point), deduplicated input', covers='as C09.eb_point_count'),
   Ob('C09.eb_point_count_3', 'C09/ebcount.cc', 'h_eb_point_count', tier='extended', unwind=10, backend='kissat', defines={'NF': 3, 'NV': 4, 'NA': 1, 'DEDUPLICATED_INPUT': 1}, max_alloc=64, mem_gb=24, timeout=3000,
      unwindset=[AP + '.3:4', AP + '.5:4', AP + '.4:2', AP + '.6:2', AP + '.2:2'],
      stubs={'_ZNSt6vectorIbSaIbEE13_M_insert_auxESt13_Bit_iteratorb': 'unreachable'},
